@@ -105,25 +105,26 @@ Record rstate := mkR {
   r_path : bytes;                     (* path of RawURL, with {name} placeholders *)
   r_pparams : list (bytes * bytes);   (* r.PathParams *)
   r_ordered : list (bytes * bytes);   (* r.OrderedFormData, as pairs *)
-  r_marshal : option (bytes * bytes)  (* r.marshalBody (SetBody with a struct / map / slice): its JSON
+  r_marshal : option (bytes * bytes); (* r.marshalBody (SetBody with a struct / map / slice): its JSON
                                          and its XML rendering *)
+  r_close : bool                      (* r.close (EnableCloseConnection): http.Request.Close of every attempt *)
 }.
 
 Definition set_headers (s : rstate) (h : amap) : rstate :=
-  mkR (r_method s) (r_rawquery s) h (r_cookies s) (r_form s) (r_query s) (r_body s) (r_getbody s) (r_reader s) (r_unreplayable s) (r_attempt s) (r_path s) (r_pparams s) (r_ordered s) (r_marshal s).
+  mkR (r_method s) (r_rawquery s) h (r_cookies s) (r_form s) (r_query s) (r_body s) (r_getbody s) (r_reader s) (r_unreplayable s) (r_attempt s) (r_path s) (r_pparams s) (r_ordered s) (r_marshal s) (r_close s).
 Definition set_cookies (s : rstate) (c : list (bytes * bytes)) : rstate :=
-  mkR (r_method s) (r_rawquery s) (r_headers s) c (r_form s) (r_query s) (r_body s) (r_getbody s) (r_reader s) (r_unreplayable s) (r_attempt s) (r_path s) (r_pparams s) (r_ordered s) (r_marshal s).
+  mkR (r_method s) (r_rawquery s) (r_headers s) c (r_form s) (r_query s) (r_body s) (r_getbody s) (r_reader s) (r_unreplayable s) (r_attempt s) (r_path s) (r_pparams s) (r_ordered s) (r_marshal s) (r_close s).
 Definition set_form (s : rstate) (f : amap) : rstate :=
-  mkR (r_method s) (r_rawquery s) (r_headers s) (r_cookies s) f (r_query s) (r_body s) (r_getbody s) (r_reader s) (r_unreplayable s) (r_attempt s) (r_path s) (r_pparams s) (r_ordered s) (r_marshal s).
+  mkR (r_method s) (r_rawquery s) (r_headers s) (r_cookies s) f (r_query s) (r_body s) (r_getbody s) (r_reader s) (r_unreplayable s) (r_attempt s) (r_path s) (r_pparams s) (r_ordered s) (r_marshal s) (r_close s).
 Definition set_body (s : rstate) (b : option bytes) (g : getbody) : rstate :=
-  mkR (r_method s) (r_rawquery s) (r_headers s) (r_cookies s) (r_form s) (r_query s) b g (r_reader s) (r_unreplayable s) (r_attempt s) (r_path s) (r_pparams s) (r_ordered s) (r_marshal s).
+  mkR (r_method s) (r_rawquery s) (r_headers s) (r_cookies s) (r_form s) (r_query s) b g (r_reader s) (r_unreplayable s) (r_attempt s) (r_path s) (r_pparams s) (r_ordered s) (r_marshal s) (r_close s).
 Definition set_reader (s : rstate) (rd : bytes) : rstate :=
-  mkR (r_method s) (r_rawquery s) (r_headers s) (r_cookies s) (r_form s) (r_query s) (r_body s) (r_getbody s) rd (r_unreplayable s) (r_attempt s) (r_path s) (r_pparams s) (r_ordered s) (r_marshal s).
+  mkR (r_method s) (r_rawquery s) (r_headers s) (r_cookies s) (r_form s) (r_query s) (r_body s) (r_getbody s) rd (r_unreplayable s) (r_attempt s) (r_path s) (r_pparams s) (r_ordered s) (r_marshal s) (r_close s).
 Definition set_attempt (s : rstate) (a : Z) : rstate :=
-  mkR (r_method s) (r_rawquery s) (r_headers s) (r_cookies s) (r_form s) (r_query s) (r_body s) (r_getbody s) (r_reader s) (r_unreplayable s) a (r_path s) (r_pparams s) (r_ordered s) (r_marshal s).
+  mkR (r_method s) (r_rawquery s) (r_headers s) (r_cookies s) (r_form s) (r_query s) (r_body s) (r_getbody s) (r_reader s) (r_unreplayable s) a (r_path s) (r_pparams s) (r_ordered s) (r_marshal s) (r_close s).
 
 Definition set_marshal (s : rstate) (m : option (bytes * bytes)) : rstate :=
-  mkR (r_method s) (r_rawquery s) (r_headers s) (r_cookies s) (r_form s) (r_query s) (r_body s) (r_getbody s) (r_reader s) (r_unreplayable s) (r_attempt s) (r_path s) (r_pparams s) (r_ordered s) m.
+  mkR (r_method s) (r_rawquery s) (r_headers s) (r_cookies s) (r_form s) (r_query s) (r_body s) (r_getbody s) (r_reader s) (r_unreplayable s) (r_attempt s) (r_path s) (r_pparams s) (r_ordered s) m (r_close s).
 
 Definition content_type : bytes := bs "Content-Type".
 Definition form_content_type : bytes := bs "application/x-www-form-urlencoded".
@@ -266,7 +267,8 @@ Record wire := mkWire {
   w_query : bytes;
   w_headers : amap;
   w_cookies : list (bytes * bytes);
-  w_body : option bytes
+  w_body : option bytes;
+  w_close : bool                      (* http.Request.Close *)
 }.
 
 Definition body_now (s : rstate) : option bytes :=
@@ -277,7 +279,7 @@ Definition body_now (s : rstate) : option bytes :=
   end.
 
 Definition wire_of (c : client) (s : rstate) : wire :=
-  mkWire (r_method s) (wire_path c s) (wire_query c s) (r_headers s) (r_cookies s) (body_now s).
+  mkWire (r_method s) (wire_path c s) (wire_query c s) (r_headers s) (r_cookies s) (body_now s) (r_close s).
 
 (* the transport reads the body to the end *)
 Definition after_send (s : rstate) : rstate :=
@@ -286,7 +288,7 @@ Definition after_send (s : rstate) : rstate :=
 (* two outgoing requests are the same request: headers compared as maps *)
 Definition wire_same (a b : wire) : Prop :=
   w_method a = w_method b /\ w_path a = w_path b /\ w_query a = w_query b /\ w_cookies a = w_cookies b /\
-  w_body a = w_body b /\ forall k, hget k (w_headers a) = hget k (w_headers b).
+  w_body a = w_body b /\ w_close a = w_close b /\ forall k, hget k (w_headers a) = hget k (w_headers b).
 
 (* ---------- retry option and its setters ---------- *)
 
